@@ -1,4 +1,4 @@
-import EventppVerif.Util.Heter
+import EventppVerif.Util.HeterSpawn
 /- Driver mode `heter`: scripts of harness/seq_heter.cpp on Util/Heter.lean. The callable matrices
    are the ones the harness measured from the compiler (`cbrow`, `argrow`, `predrow` lines). -/
 open Evp Evp.Heter
@@ -30,13 +30,17 @@ def Mat.sig (m : Mat) : Sig where
   predOk := fun f p => row m.pred f p
 
 def valStr (kind val : Nat) : String :=
-  if kind = 0 then "-" else if kind = 2 then s!"s{val}" else if kind = 3 then s!"B{val}" else toString val
+  if kind = 0 then "-" else if kind = 2 then s!"s{val}" else if kind = 3 || kind = 5 then s!"B{val}" else toString val
 
 /-- a listener prints the value as its own parameter type shows it (callback kind = cb / 100) -/
 def showEv : HEv → String
   | .call key _ h cb _ val => s!"ev call {key} {h} {cb} {valStr (cb / 100) val}"
   | .pred pk _ val => s!"ev pred {pk} {valStr pk val}"
   | .res s => s!"ev res {s}"
+
+/-- the spawning rule of harness/seq_heter.cpp (same as `harnessSpawn` in Properties/C14s.lean) -/
+def spawnRule : Spawn := fun key cb val =>
+  if cb % 10 == 9 && val % 4 != 3 then some (key, 1, val + 1) else none
 
 def main (lines : Array String) : IO Unit := do
   let out ← IO.getStdout
@@ -98,17 +102,22 @@ def main (lines : Array String) : IO Unit := do
           | some p => protoOf := protoOf ++ [(w.nextId, p)]
           | none => pure ()
         | _ => pure ()
-        let (w', evs) := step sg w op
+        let (w', evs) := stepS sg spawnRule w op
+        let flat := (step sg w op).1
         w := w'
         for e in evs do out.putStrLn (showEv e)
-        -- slot accounting: enqueue recycles a free slot or makes one; consumed events free theirs
+        -- slot accounting: enqueue recycles a free slot or makes one; consumed events free theirs;
+        -- events enqueued by listeners while the call runs take free slots first (the slots of the
+        -- events being consumed are recycled only when the call ends)
         match op with
         | .enqueue _ _ _ =>
           if w.queue.length > before && free > 0 then free := free - 1
-        | _ => free := free + (before - w.queue.length)
+        | _ =>
+          let spawned := w.queue.length - flat.queue.length
+          free := free - min free spawned + (before - flat.queue.length)
       let qs := w.queue.map (fun e => s!"{e.key}:{e.tag}")
       out.putStrLn ("q : " ++ " ".intercalate qs).trimAsciiEnd.toString
-      let nbig := (w.queue.filter (fun e => e.kind == 3)).length
+      let nbig := (w.queue.filter (fun e => e.kind == 3 || e.kind == 6)).length
       out.putStrLn s!"slots {free} big {nbig}"
     | _ => pure ()
   if started then out.putStrLn "final-big 0"
